@@ -71,12 +71,13 @@ claimed = {
  "C04": dict(
    text="Deductive proof with ghost event counters: on every path of ServeRequest/handleRequest/callService/sendResponse a plain request runs the handler (funcs.ValueCall) exactly once and hands exactly one response to the codec, a heartbeat or stream-open never runs a handler inline "
         "(handleRequest requires Heartbeat != 1), serverCodec.WriteResponse writes exactly one message for the default header; Transport.Call/Go/RoundTrip/CallWithContext/Ping and the Client wrappers issue at most one call (no retry).",
-   note=TRUST+"hslam/funcs (reflection call) and hslam/scheduler are assumed contracts; that each decoded request is scheduled once relies on ServeCodec's loop (one ServeRequest per message read, proved) and on the scheduler running each task once (assumed); the poll-mode closure of listen is not under contract.",
+   note=TRUST+"hslam/funcs (reflection call) and hslam/scheduler are assumed contracts; that each decoded request is scheduled once relies on ServeCodec's loop (one ServeRequest per message read, proved) and on the scheduler running each task once (assumed); the poll-mode serve callback of listen is under contract, its accept callback and Server.Close are not.",
    design="5/C04", technique="contract-based deductive verification with ghost counters, z3"),
  "C05": dict(
    text="Deductive proof of the client-side structural core: with client pipelining (readSched set) no call is completed inline by the reader - the error branch and the reply branch both go through the ordered completion queue (call-site assertion on every inline done) - "
-        "and requests are written through writeSched. The genuine defect found (error branch completed inline) is repaired by a fix: commit.",
-   note=TRUST+"FIFO order and single-worker execution of hslam/scheduler queues are assumed; the server-side ordering (one handler at a time in read order, poll mode under the recving lock) is not decided by contracts yet: ServeRequest's dispatch through sched is verified only for panic-freedom/exactly-once.",
+        "and requests are written through writeSched; on the server a plain request is handed to the global unordered scheduler only when the connection has no ordered queue, ServeCodec passes the ordered queue to every ServeRequest when pipelining is on, and the poll-mode "
+        "serve callback dispatches (or enqueues) each request while still holding the per-connection recving lock it read it under. The genuine defect found (client error branch completed inline) is repaired by a fix: commit.",
+   note=TRUST+"FIFO order and single-worker execution of hslam/scheduler queues are assumed; 'executed one at a time in send order' is the composition of these structural facts with that assumption, not a single theorem.",
    design="5/C05", technique="contract-based deductive verification: call-site assertions and spawn rule, z3"),
  "C06": dict(
    text="Deductive proof that the server puts ctx.Error verbatim and unmodified into the response of the same request (sendResponse/WriteResponse against the wire spec), that the client's error branch writes only the failing call (token ownership) and never decodes into its Reply, "
@@ -86,12 +87,12 @@ claimed = {
  "C10": dict(
    text="Deductive proof of the safety core: stream.stop sets the closed flag under the stream mutex and broadcasts, Close stops then calls the close hook, WriteMessage refuses after closed; the client reader's exit stops every registered stream (loop invariant), "
         "ServeCodec's teardown closes every server stream of the connection exactly via the streams table, the close-stream request closes only a registered stream (nil-safe) and is answered.",
-   note=TRUST+"Promptness/'no handler stays blocked' is liveness (sync.Cond wake-up is assumed); stream.ReadMessage's wait loop and the poll-mode EOF branch of listen are NOT under contract - the latter is known from the design reading not to stop its streams and is not machine-checked here.",
+   note=TRUST+"Promptness/'no handler stays blocked' is liveness (sync.Cond wake-up is assumed). stream.ReadMessage waits only when it has seen the closed flag clear since it last held the lock (Cond.Wait modelled as unlock+lock); the poll-mode end-of-connection branch of listen is under contract: the genuine defect found there (streams never stopped) is repaired by a fix: commit. Server.Close/listen's accept loop are not under contract.",
    design="5/C10", technique="contract-based deductive verification: lock invariants, loop invariants, z3"),
  "C11": dict(
    text="Deductive proof of the copy-before-recycle obligations on the request/response paths: the reply bytes of a call live in the caller's own buffer or in a fresh allocation when the read buffer is returned to the pool (finishCall), "
         "the error text of a failed call is a private copy (read), handler arguments are decoded from a fresh copy unless NoCopy is set (readRequestBody), and finishCall writes a caller buffer only below the reported length (bounds obligations).",
-   note=TRUST+"Pool exclusivity (a buffer obtained from a pool is held by nobody else) is assumed; the caller's context buffer is assumed not to be the read buffer; stream.ReadMessage (stream messages) and third-party body codecs are not under contract.",
+   note=TRUST+"Pool exclusivity (a buffer obtained from a pool is held by nobody else) is assumed; the caller's context buffer is assumed not to be the read buffer; stream messages are decoded from the reader's own buffer or a private copy, never from the pooled event buffer, unless NoCopy is set (stream.ReadMessage); third-party body codecs are not under contract.",
    design="5/C11", technique="contract-based deductive verification: aliasing assertions at recycle points, z3"),
  "C19": dict(
    text="Deductive proof that CallWithContext recycles the call only on the completion branch and returns exactly ctx.Err() on the cancellation branch (ghost counters on PutCall / Context.Err), that an abandoned call stays registered so that a late response is consumed without touching any other call "
@@ -109,7 +110,7 @@ claimed = {
         "the obligations that fail on the pinned tree are genuine defects (truncated frames panic the four decoders; over-read behind len) replayed on the real code "
         "and listed in known_findings.json. The dispatch path is proved panic-free for all 32 upgrade flag combinations after the fix.",
    note=TRUST+"Also covered now: the server dispatch path (ServeRequest, handleRequest, readRequestBody, callService, sendResponse, ServeCodec) for every upgrade flag byte, and the client read path (recv, read, finishCall); "
-        "the fifteen crashing flag bytes found there are repaired by a fix: commit. Not covered: the poll-mode closure of listen, the json header (encoding/json trusted), panics needing an interleaving beyond the lock discipline.",
+        "the fifteen crashing flag bytes found there are repaired by a fix: commit. Also covered: the poll-mode serve callback of listen. Not covered: the json header (encoding/json trusted), panics needing an interleaving beyond the lock discipline.",
    design="5/C08", technique="contract-based deductive verification (panic-freedom obligations from go/ssa, z3), counterexamples replayed via go test -overlay"),
 }
 checks=[]
